@@ -358,6 +358,7 @@ type actCh struct {
 	ActNum int
 }
 type dataDesc struct {
+	MoodTail   bool `json:",omitempty"` // the last events the collector got are mood changes
 	ActorHas   map[string]bool
 	VarHas     map[string]bool // member|actor|sig
 	AuditHas   map[string]bool
@@ -639,7 +640,23 @@ func genEventsOnce(rng *rand.Rand, c *gCfg) ([]cmd.VerifCollectEvent, *dataDesc)
 			d.AuditHas[m.Name] = true
 		}
 	}
+	// mood changes also reach the collector (they only extend the time range)
+	if rng.Intn(2) == 0 {
+		for n := 0; n < 1+rng.Intn(3); n++ {
+			add(cmd.VerifCollectEvent{Kind: "mood", Val: []string{"red", "blue", "clear"}[rng.Intn(3)]}, ts())
+		}
+	}
 	rng.Shuffle(len(evs), func(i, j int) { evs[i], evs[j] = evs[j], evs[i] })
+	// the tail of a play may hold nothing but mood changes: the time range
+	// must still contain them
+	if rng.Intn(3) == 0 {
+		last := start + span
+		for n := 0; n < 1+rng.Intn(2); n++ {
+			last += int64(1+rng.Intn(40)) * 10 * ms
+			add(cmd.VerifCollectEvent{Kind: "mood", Val: []string{"red", "clear"}[n%2]}, last)
+		}
+		d.MoodTail = true
+	}
 	// what the statement says was "received": derived from the events alone
 	for _, m := range c.Members {
 		any := d.AuditHas[m.Name]
@@ -700,7 +717,7 @@ func runCollectCase(c *gCfg, evs []cmd.VerifCollectEvent, d *dataDesc) (*plotCas
 	for _, a := range d.Acts {
 		acts = append(acts, cmd.VerifActChange{Ts: toF(a.Ts), ActNum: a.ActNum})
 	}
-	out, cerr, csv := cmd.VerifCollectAndPlot(c.Text, evs, moods, acts, d.NumRepeats)
+	out, cerr, csv := cmd.VerifCollectAndPlotMoods(c.Text, evs, moods, acts, d.NumRepeats)
 	if cerr != "" {
 		return nil, "collector refused a generated event: " + cerr + "\n" + c.Text
 	}
@@ -1128,6 +1145,7 @@ func finishCase(c *gCfg, d *dataDesc, out cmd.VerifPlotOutput) (*plotCase, strin
 }
 
 type moodCase struct {
+	EndBy  string `json:",omitempty"` // through the real audit() loop, ended by terminate / cancel / quiesce
 	Events []cmd.VerifMoodEvent
 	Final  float64
 	Obs    []cmd.VerifMoodPeriod
@@ -1156,7 +1174,54 @@ func genMoodCase(rng *rand.Rand) moodCase {
 			obs[i].End = final
 		}
 	}
-	return moodCase{evs, final, obs, e}
+	return moodCase{"", evs, final, obs, e}
+}
+
+// genLoopCase: the same bookkeeping, driven through the real audit() loop
+// (mood and act changes over an unbuffered channel) and ended the three ways
+// a play ends it.
+func genLoopCase(rng *rand.Rand) moodCase {
+	n := rng.Intn(8)
+	moods := []string{"clear", "red", "blue", "red"}
+	var evs, moodEvs []cmd.VerifMoodEvent
+	var actNums []int
+	var wantActs []cmd.VerifActChange
+	t := int64(0)
+	act := 0
+	for i := 0; i < n; i++ {
+		t += int64(rng.Intn(40)) * 10000
+		if rng.Intn(3) == 0 {
+			act++
+			evs = append(evs, cmd.VerifMoodEvent{Ts: toF(t)})
+			actNums = append(actNums, act)
+			wantActs = append(wantActs, cmd.VerifActChange{Ts: toF(t), ActNum: act})
+			continue
+		}
+		e := cmd.VerifMoodEvent{Ts: toF(t), Mood: moods[rng.Intn(len(moods))]}
+		evs = append(evs, e)
+		moodEvs = append(moodEvs, e)
+		actNums = append(actNums, 0)
+	}
+	// most plays that are cut short are cut while a mood is in force
+	if len(moodEvs) > 0 && rng.Intn(2) == 0 && moodEvs[len(moodEvs)-1].Mood == "clear" {
+		t += 10000
+		e := cmd.VerifMoodEvent{Ts: toF(t), Mood: "red"}
+		evs = append(evs, e)
+		moodEvs = append(moodEvs, e)
+		actNums = append(actNums, 0)
+	}
+	final := toF(t + int64(1+rng.Intn(50))*10000)
+	endBy := []string{"terminate", "cancel", "cancel", "quiesce"}[rng.Intn(4)]
+	obs, acts, e := cmd.VerifMoodLoop(evs, actNums, final, endBy)
+	for i := range obs {
+		if i == len(obs)-1 && obs[i].End >= final && obs[i].End < final+0.05 {
+			obs[i].End = final
+		}
+	}
+	if e == "" && fmt.Sprint(acts) != fmt.Sprint(wantActs) {
+		e = fmt.Sprintf("act changes recorded %v, sent %v", acts, wantActs)
+	}
+	return moodCase{endBy, moodEvs, final, obs, e}
 }
 
 func coqMoodCase(c moodCase) string {
@@ -1187,7 +1252,7 @@ func main() {
 	rng := vh.Rng(*seed)
 	defer cmd.VerifLogScope()()
 
-	nCfg, nCol, perCfg, nMood, nE2E := 100, 80, 3, 300, 4
+	nCfg, nCol, perCfg, nMood, nE2E := 100, 80, 3, 300, 6
 	if *tier == "thorough" {
 		nCfg, nCol, perCfg, nMood, nE2E = 800, 600, 4, 4000, 12
 	}
@@ -1230,6 +1295,9 @@ func main() {
 	var moodCases []moodCase
 	for i := 0; i < nMood; i++ {
 		moodCases = append(moodCases, genMoodCase(rng))
+	}
+	for i := 0; i < nMood/2; i++ {
+		moodCases = append(moodCases, genLoopCase(rng))
 	}
 	var e2e []*e2eCase
 	if nE2E > 0 && *bin != "" {
@@ -1392,9 +1460,11 @@ type e2eExpect struct {
 }
 
 type e2eSpec struct {
-	name string
-	cfg  *gCfg
-	exp  e2eExpect
+	name  string
+	cfg   *gCfg
+	exp   e2eExpect
+	flags []string
+	foul  bool // the play is expected to be fouled (exit status 1)
 }
 
 // e2eSpecs builds plays with real commands: a role whose actions append to a
@@ -1459,6 +1529,12 @@ func e2eSpecs(rng *rand.Rand, n int) []e2eSpec {
 			addM(m6, "audits only while mood == 'purple'", "expects never: t < 0")
 		}
 
+		tmpl := i % 6
+		if tmpl == 5 {
+			// fouls the play as soon as a mood starts
+			m8 := &gMember{Name: "strict", Active: "true", ExpFsm: "always", ExpSrc: "mood == 'clear'"}
+			addM(m8, "expects always: mood == 'clear'")
+		}
 		// script
 		exp := e2eExpect{}
 		var sb strings.Builder
@@ -1480,7 +1556,11 @@ func e2eSpecs(rng *rand.Rand, n int) []e2eSpec {
 		sb.WriteString("  scene r mood starts red\n  scene b mood starts blue\n  scene x mood ends clear\n")
 		var acts []string
 		var story string
-		switch i % 4 {
+		switch tmpl {
+		case 4: // the tail of the play holds nothing but mood changes, after the first second
+			acts = []string{"c.f..........r....x"}
+		case 5: // fouled (with -S) while a mood is in force: the play is cut short in the red period
+			acts = []string{"c.r..............x"}
 		case 0: // one act, no mood
 			acts = []string{"c.f"}
 		case 1: // two acts, one closed mood period
@@ -1514,7 +1594,12 @@ func e2eSpecs(rng *rand.Rand, n int) []e2eSpec {
 		exp.RepeatAct = repeatFrom
 		exp.WantsRepeat = repeatFrom > 0
 		c.Text = sb.String()
-		specs = append(specs, e2eSpec{fmt.Sprintf("play%02d", i), c, exp})
+		sp := e2eSpec{name: fmt.Sprintf("play%02d", i), cfg: c, exp: exp}
+		if tmpl == 5 {
+			sp.flags = []string{"-S"}
+			sp.foul = true
+		}
+		specs = append(specs, sp)
 	}
 	return specs
 }
@@ -1584,7 +1669,8 @@ func runOneE2E(bin string, sp e2eSpec) *e2eCase {
 	}
 	outDir := filepath.Join(dir, "out")
 	t0 := time.Now()
-	c := exec.Command(bin, "-q", "-o", outDir, "play.cfg")
+	args := append([]string{"-q", "-o", outDir}, sp.flags...)
+	c := exec.Command(bin, append(args, "play.cfg")...)
 	c.Dir = dir
 	c.Env = append(os.Environ(), "GNUPLOT="+filepath.Join(dir, "no-gnuplot"), "SHELL=/bin/bash")
 	done := make(chan struct{})
@@ -1602,6 +1688,11 @@ func runOneE2E(bin string, sp e2eSpec) *e2eCase {
 		return ec
 	}
 	ec.Elapsed = time.Since(t0).Seconds()
+	if ee, ok := cerr.(*exec.ExitError); ok && sp.foul && ee.ExitCode() == 1 {
+		cerr = nil // fouled, as intended: the results are still assembled and plotted
+	} else if cerr == nil && sp.foul {
+		cerr = fmt.Errorf("the play was meant to be fouled")
+	}
 	if cerr != nil {
 		ec.Err = fmt.Sprintf("%v: %s", cerr, cout)
 		return ec
@@ -1673,6 +1764,9 @@ func runOneE2E(bin string, sp e2eSpec) *e2eCase {
 		}
 	}
 	bands := expectedBands(acts, seq)
+	if sp.foul {
+		bands = []string{"red"}
+	}
 	ec.Expect.Bands = bands
 	var bs []string
 	for _, b := range bands {
